@@ -8,6 +8,7 @@ package trzsz
 import (
 	"bytes"
 	"fmt"
+	"io"
 	"math/rand"
 	"os"
 	"os/exec"
@@ -329,7 +330,21 @@ func c01Process(d *vCtx) error {
 			cmd.Stderr = &stderr
 			clientIn := &e2eChanReader{ch: make(chan []byte)}
 			sink := &e2eSink{}
-			f := NewTrzszFilter(clientIn, sink, stdin, stdout, TrzszOptions{TerminalColumns: 100})
+			// a client affected by Windows ("!\n" framing wanted, no binary) in front of the non-Windows server
+			// process, and zero, one or two relays (in this process) between them
+			win := (id/8)%2 == 1
+			hops := (id / 16) % 3
+			SetAffectedByWindows(win)
+			_ = os.Unsetenv("TMUX") // the relays must not believe that they sit inside somebody's tmux
+			var srvIn io.WriteCloser = stdin
+			var srvOut io.Reader = stdout
+			for hp := 0; hp < hops; hp++ {
+				upR, upW := io.Pipe()     // towards the server: filter / outer relay -> this relay
+				downR, downW := io.Pipe() // towards the client: this relay -> filter / outer relay
+				NewTrzszRelay(upR, downW, srvIn, srvOut, TrzszOptions{})
+				srvIn, srvOut = upW, downR
+			}
+			f := NewTrzszFilter(clientIn, sink, srvIn, srvOut, TrzszOptions{TerminalColumns: 100})
 			var upRes <-chan error
 			if upload {
 				upRes, err = f.OneTimeUpload(tops)
@@ -364,6 +379,11 @@ func c01Process(d *vCtx) error {
 			for dl := time.Now().Add(10 * time.Second); f.IsTransferringFiles() && time.Now().Before(dl); {
 				time.Sleep(2 * time.Millisecond)
 			}
+			// the server's last words travel on through the relays and the filter's output pump
+			for dl := time.Now().Add(8 * time.Second); !hung && !e2eSavedRe.MatchString(sink.String()) && time.Now().Before(dl); {
+				time.Sleep(2 * time.Millisecond)
+			}
+			time.Sleep(5 * time.Millisecond)
 			_ = pr.Close()
 			cok := false
 			cerrText := ""
@@ -407,11 +427,16 @@ func c01Process(d *vCtx) error {
 				"extra": len(extra), "touched": 0, "shown": shownOK, "nshown": len(names), "ntops": len(tops), "npresent": 0, "keptok": true,
 				"verified": 0, "claimsame": allSame && len(entries) > 0, "mutapplied": false, "vmgrow": 0, "pdata": 0, "pkeep": 0, "dataafter": 0, "pausems": 0, "npauses": 0}, nil)
 			details = append(details, map[string]any{"case": map[string]any{"id": rid, "opts": map[string]any{"upload": upload, "binary": binary,
-				"directory": directory, "overwrite": overwrite}, "process": true}, "entries": entries, "extra": extra, "shown": names,
+				"directory": directory, "overwrite": overwrite, "windows_client": win, "relay_hops": hops}, "process": true}, "entries": entries, "extra": extra, "shown": names,
 				"server_err": e2eFirstLine(stderr.String()), "client_err": cerrText, "terminal": e2eTail(shownText, 700)})
 			close(clientIn.ch)
+			SetAffectedByWindows(false)
 			os.RemoveAll(work)
 			d.add("runs", 1)
+			if win {
+				d.add("windows_client_runs", 1)
+			}
+			d.add(fmt.Sprintf("relay_hops_%d", hops), 1)
 		}
 		if err := tr.Close(); err != nil {
 			return err
